@@ -1673,6 +1673,11 @@ func (c *HostClient) doNonNilReqResp(req *Request, resp *Response) (bool, error)
 	req.secureErrorLogMessage = c.SecureErrorLogMessage
 	req.Header.secureErrorLogMessage = c.SecureErrorLogMessage
 
+	// A request URI that does not parse has no scheme to compare: without this
+	// check an unparsable https URL read as http and went out in clear text.
+	if err := req.parseURI(); err != nil {
+		return false, err
+	}
 	if c.IsTLS != req.URI().isHTTPS() {
 		return false, ErrHostClientRedirectToDifferentScheme
 	}
